@@ -22,6 +22,19 @@ def run(ctx):
         if r.get("py") != r.get("cy"):
             bad.append({"what": "compiled and pure-Python implementations return different values",
                         "function": c["f"], "args": c["a"], "python": r.get("py"), "compiled": r.get("cy")})
+    # the same grid on extensions compiled from the TRACKED generated C (a build on a fresh checkout reuses it)
+    tracked = 0
+    alt = common.prepare_impl_tracked_c(ctx)
+    if alt:
+        import copy
+        ctx2 = copy.copy(ctx)
+        ctx2.impl = alt
+        for c, r in zip(cases, common.run_workers(ctx2, "w_leaf", [{"f": c["f"], "a": c["a"]} for c in cases])):
+            if "cy" in r:
+                tracked += 1
+                if r.get("py") != r.get("cy"):
+                    bad.append({"what": "an extension compiled from the tracked generated C sources (what setup.py builds on a fresh checkout, where the C is not older than the .pyx) and the pure-Python implementation return different values",
+                                "function": c["f"], "args": c["a"], "python": r.get("py"), "compiled_from_tracked_c": r.get("cy")})
     whole = whole_projects(ctx)
     bad += whole["bad"]
     violations = []
@@ -37,7 +50,7 @@ def run(ctx):
     dist = Counter(c["f"] for c in cases)
     cov = {"obligations": nob, "discharged": ndis - (nob - ndis if False else 0), "checker_cmd": "tools/coqbuild.sh (coqc 8.16.1 full .vo build) after translate/py2v.py /repo -> coq/Gen (both the .py and the .pyx side are regenerated)",
            "trusted_base": common.TRUSTED, "files": files, "traces_validated_against_impl": len(cases), "disagreements": len(dis),
-           "input_distribution": dict(dist), "whole_projects_compared_with_extensions_blocked": whole["n"], "exhaustive": True,
+           "input_distribution": dict(dist), "cases_also_run_on_extensions_built_from_tracked_c": tracked, "whole_projects_compared_with_extensions_blocked": whole["n"], "exhaustive": True,
            "rule": "bounded grid: every index/boundary instant of windows x resolutions; every predicate pattern up to length 6 (quick) / 10 (thorough); every 7th minute (quick) / every minute (thorough) of a week x interval sets incl. cross-midnight, unordered and empty days; each on both twins (the .so rebuilt from the current .pyx) and on the extracted regenerated Gallina function; whole projects scheduled with the extensions loaded and blocked",
            "samples": [{"case": c["f"], "args": c["a"][:14], "impl": i, "model": m} for c, i, m in list(zip(cases, impl, model))[:: max(1, len(cases) // 6)][:6]]}
     common.finish(ctx, "proof", cov, violations,
